@@ -56,7 +56,8 @@ func (s *initFlowSynchronizationImpl) AwaitRuntimeReady() error {
 
 func (s *initFlowSynchronizationImpl) AwaitRuntimeReadyWithDeadline(ctx context.Context) error {
 	var err error
-	errorChan := make(chan error)
+	// room for the result: when the deadline wins nobody receives it, and the helper must not stay behind
+	errorChan := make(chan error, 1)
 
 	go func() {
 		errorChan <- s.runtimeReadyGate.AwaitGateCondition()
